@@ -418,13 +418,38 @@ def check_composites(model, rep):
     # at the function level axis lengths are integers, so out-of-range bounds can and must be clipped as Python/NumPy do:
     # the unit-step branch takes start/stop from slice.indices(n) (or clips explicitly) and never lets stop fall below start
     f = model.func('function:_takeslice')
-    unit = [g for g in ast.walk(f.node) if isinstance(g, ast.If) and 'step' in src(g.test) and ('== 1' in src(g.test) or '==1' in src(g.test))]
-    if len(unit) != 1:
+    import re as _re
+    from sa.boolnf import equivalent as _equiv
+    from sa.astutil import if_branches as _if_branches
+    unit, body = [], None
+    for blk_owner in ast.walk(f.node):
+        for fld in ('body', 'orelse'):
+            blk = getattr(blk_owner, fld, None)
+            if not isinstance(blk, list):
+                continue
+            for g in blk:
+                if not (isinstance(g, ast.If) and 'step' in src(g.test)):
+                    continue
+                mname = _re.search(r'(\w+)\.step', src(g.test))
+                if not mname:
+                    continue
+                S_ = mname.group(1)
+                # the statements executed for a unit step, whichever way round the test is written
+                try:
+                    t_, e_ = _if_branches(blk, g)
+                    if any(_equiv(g.test, w) for w in (f'{S_}.step == None or {S_}.step == 1', f'{S_}.step is None or {S_}.step == 1')):
+                        unit.append(g)
+                        body = t_
+                    elif any(_equiv(g.test, w) for w in (f'not ({S_}.step == None or {S_}.step == 1)', f'not ({S_}.step is None or {S_}.step == 1)')):
+                        unit.append(g)
+                        body = e_
+                except Exception:
+                    continue
+    if len(unit) != 1 or body is None:
         raise AnalysisError('function._takeslice: the unit-step branch was not found')
-    body = unit[0].body
     clipped = any(isinstance(c, ast.Call) and method_name(c) == 'indices' for s_ in body for c in ast.walk(s_)) or \
         (any(isinstance(c, ast.Call) and src(c.func).endswith('max') for s_ in body for c in ast.walk(s_)) and any(isinstance(c, ast.Call) and src(c.func).endswith('min') for s_ in body for c in ast.walk(s_)))
-    ordered = any(isinstance(s_, ast.Assign) and src(s_.targets[0]) in ('stop', 'length') and any(isinstance(c, ast.Call) and src(c.func).endswith('max') for c in ast.walk(s_.value)) for s_ in ast.walk(unit[0]))
+    ordered = any(isinstance(s_, ast.Assign) and src(s_.targets[0]) in ('stop', 'length') and any(isinstance(c, ast.Call) and src(c.func).endswith('max') for c in ast.walk(s_.value)) for b_ in body for s_ in ast.walk(b_))
     ok = clipped and ordered
     rep.ob('R07.6', f.key, f.where(unit[0]), ok, 'unit-step slices clip out-of-range bounds (slice.indices) and an empty range stays empty (stop >= start)' if ok else
            'the unit-step branch of function._takeslice shifts negative bounds by the length but does not clip them to the axis: a[-10:3] of a length-5 array has 8 entries, a[1:10] and a[3:1] build a range of impossible '
@@ -918,7 +943,17 @@ def check_boolean_cases(model, rep, oracle):
     takes = [c for c in ast.walk(gi.node) if isinstance(c, ast.Call) and src(c.func) in ('numpy.take', 'take')]
     if not takes:
         raise AnalysisError('Array.__getitem__: numpy.take not found')
-    tests = [g for g in ast.walk(gi.node) if isinstance(g, ast.If) and g.lineno < takes[0].lineno and 'bool' in src(g.test) and 'dtype' in src(g.test)]
+    def tests_bool_kind(test):
+        # the test itself, or a module-level predicate it calls, looks at the boolean dtype
+        if 'bool' in src(test) and 'dtype' in src(test):
+            return True
+        for c_ in ast.walk(test):
+            if isinstance(c_, ast.Call) and isinstance(c_.func, ast.Name):
+                h_ = model.functions.get(f'function:{c_.func.id}')
+                if h_ is not None and not isinstance(h_.node, ast.Lambda) and 'bool' in src(h_.node) and 'dtype' in src(h_.node):
+                    return True
+        return False
+    tests = [g for g in ast.walk(gi.node) if isinstance(g, ast.If) and g.lineno < takes[0].lineno and tests_bool_kind(g.test)]
     ok = bool(tests)
     rep.ob('R07.11', gi.key, gi.where(takes[0]), ok, 'a boolean subscript is recognised as a mask before the index-array branch applies numpy.take' if ok else
            f'`{src(takes[0])}` is applied to every non-slice item without a test for the boolean kind: a boolean array used as subscript is applied as the integer indices 0 and 1 (a[[True,False,True]] gives a[[1,0,1]]) '
